@@ -23,9 +23,11 @@ BFS over redefinition / deletion histories against a name -> binding model):
      module whose parameters are not called x, y, z: an application with as many arguments as the function has
      required positional parameters is the Python call with those arguments in positional order.
 """
+import contextlib
 import itertools
 import json
 import os
+import signal
 import sys
 
 import numpy as np
@@ -111,6 +113,24 @@ def outcome(fn):
 
 def osh(o):
     return 'ok:' + show(o[1]) if o[0] == 'ok' else 'exc:' + o[1]
+
+
+@contextlib.contextmanager
+def watchdog(cpu_s=CASE_TIMEOUT, wall_s=900):
+    """Per-case timeout in *CPU* seconds of this process (ITIMER_PROF), with runner.watchdog as a generous wall-clock
+    backstop.  Every case here is pure computation of about a millisecond; on a machine whose cores are taken by
+    other jobs a worker can be off the CPU for longer than any sensible wall-clock limit (observed: 24 false
+    "did not terminate" verdicts in one quick run under load average 60), while a case that really loops burns CPU."""
+    def on_prof(signum, frame):
+        raise runner.CaseTimeout()
+    old = signal.signal(signal.SIGPROF, on_prof)
+    signal.setitimer(signal.ITIMER_PROF, cpu_s)
+    try:
+        with runner.watchdog(wall_s):
+            yield
+    finally:
+        signal.setitimer(signal.ITIMER_PROF, 0)
+        signal.signal(signal.SIGPROF, old)
 
 
 def retuple(x):
@@ -740,7 +760,7 @@ def c_make_expand(bodies, arg_values, with_py):
             if env.m.caps[s] is None:
                 continue
             for t in tuples:
-                with runner.watchdog(CASE_TIMEOUT):
+                with watchdog():
                     try:
                         vs, o = c_judge(env, ('call', s, t), hist)
                     except runner.CaseTimeout:
@@ -757,8 +777,15 @@ def c_make_expand(bodies, arg_values, with_py):
             writes += [('pydef', n) for n in C_PY if (env.m.binding or ())[:2] != ('p', n)]
         writes += [('del',), ('read', 0), ('read', 1)]
         for op in writes:
-            e2 = c_build(hist, bodies)
-            vs, o = c_judge(e2, op, hist)
+            try:
+                with watchdog():
+                    e2 = c_build(hist, bodies)
+                    vs, o = c_judge(e2, op, hist)
+            except runner.CaseTimeout:
+                vs, o = [dict(key='c: ' + ' ; '.join(c_op_text(h, bodies) for h in hist + (op,)),
+                              observed='did not terminate', expected='termination', case=None, snippet=None,
+                              group=None)], 'timeout'
+                e2 = None
             out['writes'] += 1
             out['transitions'] += 1
             for v in vs:
@@ -1000,7 +1027,7 @@ def _work_factory(quick, universe, sigs, moddir):
         total = new_part()
         for case in cases:
             try:
-                with runner.watchdog(CASE_TIMEOUT):
+                with watchdog():
                     part = case[0]
                     if part == 'a':
                         r = a_run_case(case[1:], universe)
@@ -1036,15 +1063,17 @@ def run(cfg):
     dcases = d_cases(quick, moddir)
     cases = acases + bcases + rcases + dcases
     total = new_part()
-    for part in runner.pmap(_work_factory(quick, universe, sigs, moddir), cases, cfg, chunk=60):
+    # Forking costs more than it saves for sub-millisecond cases: measured, the quick tier is 12 s of CPU in one
+    # process but > 50 s of CPU when fanned out (7 s wall at best; many minutes when the cores are shared with other
+    # jobs, because pinned workers starve), the thorough tier 79 s in one process vs 16 s .. > 1 h.  Both tiers
+    # therefore run in this process (cfg.jobs is not used); cfg.seed still permutes the order of the product cases.
+    cfg1 = runner.Cfg(cfg.pid, cfg.tier, cfg.seed, 1)
+    for part in runner.pmap(_work_factory(quick, universe, sigs, moddir), cases, cfg1, chunk=60):
         runner.merge_counts(total, part)
 
     # part (c)
     bodies = C_BODIES_Q if quick else C_BODIES_T
-    # every fan-out forks cfg.jobs workers per BFS layer, which costs more than it saves for a few thousand
-    # sub-millisecond transitions (measured: quick 11 s CPU inline vs > 50 s CPU forked): small searches run inline
-    cfg1 = runner.Cfg(cfg.pid, cfg.tier, cfg.seed, 1)
-    ca = bfs.search(c_make_expand(bodies, C_ARG_VALUES_Q if quick else C_ARG_VALUES_T, False), cfg1 if quick else cfg,
+    ca = bfs.search(c_make_expand(bodies, C_ARG_VALUES_Q if quick else C_ARG_VALUES_T, False), cfg1,
                     cfg.pick(4, 6), init_key=CModel().key())
     cb = bfs.search(c_make_expand(C_BODIES_B, C_ARG_VALUES_B, True), cfg1, cfg.pick(4, 9), init_key=CModel().key())
     # thorough: depth 6 closes the model's state space ((bodies+1)^3 states, all reachable in <= 5 operations), so
